@@ -22,7 +22,7 @@ Section FD.
   Qed.
 
   Lemma fd_step_items f op : f_items (fst (fd_step ih f op)) = f_items f.
-  Proof. destruct op; simpl; trivial. apply fd_hash_items. Qed.
+  Proof. destruct op; simpl; trivial; apply fd_hash_items. Qed.
 
   Definition fd_run (f : fdict) (ops : list fd_op) : fdict :=
     fold_left (fun f op => fst (fd_step ih f op)) ops f.
@@ -58,7 +58,7 @@ Section FD.
   Qed.
 
   Lemma fd_step_slot_ok f op : slot_ok f -> slot_ok (fst (fd_step ih f op)).
-  Proof. destruct op; simpl; trivial. apply fd_hash_slot_ok. Qed.
+  Proof. destruct op; simpl; trivial; apply fd_hash_slot_ok. Qed.
 
   Lemma fd_run_slot_ok ops : forall f, slot_ok f -> slot_ok (fd_run f ops).
   Proof.
